@@ -343,7 +343,8 @@ class ValueNumbers(object):
       elif isinstance(v, tuple) and v[0] in ('unpack', 'elem'):
         base = self.term(v[1], d)
         if v[0] == 'elem':
-          base = ('elem', base)
+          from .symeval import elem_of
+          base = elem_of(base)
         for i in (v[2] or ()):
           if base[0] in ('tuple', 'list') and i < len(base) - 1:
             base = base[1 + i]
